@@ -47,6 +47,14 @@ BULK = ["unsubscribe_from_all", "pause_all_subscriptions", "resume_all_subscript
 CTX = ["subscription_context", "paused_subscription_context"]
 
 
+class _BodyLeft(Exception):
+    pass
+
+
+class _BodyLeftBase(BaseException):
+    pass
+
+
 class C02World:
     def __init__(self, cfg):
         import logging
@@ -225,11 +233,19 @@ class C02World:
                     getattr(c, name)()
                 elif name in CTX:
                     entered = False
-                    with getattr(c, name)(list(types)):
-                        entered = True
-                        self.cs.pump()
-                        if op.get("probe_inside"):
-                            self.check_agreement(f"entering {name}({types})")
+                    try:
+                        with getattr(c, name)(list(types)):
+                            entered = True
+                            self.cs.pump()
+                            if op.get("probe_inside"):
+                                self.check_agreement(f"entering {name}({types})")
+                            if op.get("leave") == "exception":
+                                # the body is left by an exception of its own (it made no subscription change)
+                                raise _BodyLeft()
+                            if op.get("leave") == "base-exception":
+                                raise _BodyLeftBase()
+                    except (_BodyLeft, _BodyLeftBase):
+                        pass
                 else:
                     raise HarnessError(f"unknown op {name}")
             except InvalidSubscription as e:
@@ -355,6 +371,8 @@ def _st_op():
             lambda x: {"op": x[0], "types": x[1], "bad": x[2], "bad_at": x[3], "container": x[4]}),
         st.sampled_from(BULK).map(lambda n: {"op": n}),
         st.tuples(st.sampled_from(CTX), st_types(), st.booleans()).map(lambda x: {"op": x[0], "types": x[1], "probe_inside": x[2]}),
+        st.tuples(st.sampled_from(CTX), st_types(), st.booleans(), st.sampled_from(["exception", "exception", "base-exception"])).map(
+            lambda x: {"op": x[0], "types": x[1], "probe_inside": x[2], "leave": x[3]}),
         st.tuples(st.sampled_from(["clean", "lost", "lost"]), st.booleans()).map(lambda x: {"op": "reconnect", "how": x[0], "resume_all": x[1]}),
     )
 
@@ -424,6 +442,9 @@ def enumerate_small(idx, nshards, stride):
         for name in OPS + CTX:
             for args in small_arglists():
                 cases.append((path, {"op": name, "types": args}))
+        for name in CTX:
+            for args in small_arglists():
+                cases.append((path, {"op": name, "types": args, "leave": "exception"}))
         for name in BULK:
             cases.append((path, {"op": name}))
     mine = [c for i, c in enumerate(cases) if i % nshards == idx]
